@@ -53,7 +53,11 @@ def make_gen(env, spec):
         if lib.dll.secp256k1_generator_generate_blinded(lib.ctx, g, bytes.fromhex(spec["seed"]), ec.i2b(spec["r"] % N or 1)) != 1:
             return None
     else:
-        g = gen_from_point(env, ec.mulg(spec["k"] % N or 1))
+        # an arbitrary curve point through generator_parse.  Its discrete logarithm is hashed so that no SMALL relation between H, G and an edge-biased
+        # blinding factor exists: with H = 2G, blind = 2, value = 0 the ring key C - 1*H is the point at infinity, rangeproof_sign still returns 1 and
+        # verification (correctly) rejects the ring - a degenerate input outside the Pedersen setting (log_G H must be unknown to the committer).
+        k = ec.b2i(ec.sha256(b"vf parsed generator" + ec.i2b(spec["k"] % N))) % (N - 1) + 1
+        g = gen_from_point(env, ec.mulg(k))
     return g, gen_point(env, g)
 
 
